@@ -63,6 +63,34 @@ P = {
    technique="interprocedural value-flow: freshness summaries for returned buffers, per-(function,parameter) taint summaries for retained/modified arguments with callbacks resolved at call sites, store-shape check for iterator buffers",
    text="Decides buffer ownership across the API boundary on every path: Get results are fresh copies; key/value/batch arguments are never retained or modified (only read or copied from), including through the write-merge hand-off; iterator key/value are private buffers; the memdb arena is append-only. Heap modelled field-/cell-based (no points-to): aliasing through interface-typed cache values beyond summarised paths is NOT covered.",
    ref="DESIGN.md §2 C20"),
+ "C12": dict(
+   technique='guard extraction (acceptance gates of the journal reader), sibling comparison of normalised offset expressions between journal writer and reader, constant agreement, sticky-error check',
+   text='Decides the gates and agreements journal framing rests on: the reader accepts a chunk only after header/type/length/CRC checks and first-chunk typing; the writer never lets a header straddle a block; checksummed range, length field, type byte and payload start sit at the same offsets on both sides with the same constants; the writer latches errors. Round-trip equality and damage containment over all byte streams are not decided.',
+   ref="DESIGN.md §2 C12"),
+ "C13": dict(
+   technique='guard extraction with exactness (converse) checks on block/entry decoding and Seek, checksum-gate plumbing via call-site argument flow, sibling comparison of table writer/reader trailer/footer layout, must-follow rules for restart points and index entries',
+   text='Decides structural necessary conditions of the sorted-table format: checksum gate and verification-flag plumbing, entry decoding rejects truncated/overflowing entries before use, index keys are separator/successor with full-key fallback and carry the handle of the block just written, writer/reader agree on block trailer/footer/constants, restart points exactly every interval with only non-restart entries sharing a prefix, comparer discipline. Round-trip under all layouts, range slicing, approximate offsets and behaviour on altered bytes beyond the presence of the gates are not decided.',
+   ref="DESIGN.md §2 C13"),
+ "C14": dict(
+   technique="guarded-by lockset analysis with requires-lock summaries, path-sensitive lock pairing, constant-flag call-site check (findGE prev), argument taint (copy-in), store-shape check (append-only arena), guard extraction for the counters",
+   text="Decides the lock discipline and bookkeeping shape of the in-memory buffer: shared fields only under mu (exclusive for writes), predecessor-recording search only under the write lock, lock paired on every exit, arguments copied and arena append-only, n/kvSize updated only for new/existing keys respectively. Skip-list order, Len/Size arithmetic over histories and iterator results under concurrent inserts are not decided.",
+   ref="DESIGN.md §2 C14"),
+ "C15": dict(
+   technique="abstract interpretation of iComparer.Compare's loop-free CFG over the finite sign domain, guard extraction for the Separator/Successor shortening conditions, sibling comparison of trailer encode/decode, constant evaluation, comparer-discipline scan",
+   text="Decides the sign table of the internal-key comparison (user key ascending via the configured comparer, then sequence|kind descending, operands in the right order), the shortening guards of iComparer.Separator/Successor (shortened key only when shorter and strictly greater than the left key, maximal trailer appended, else nil), trailer encode/decode agreement and range checks, and the key constants. Totality/transitivity for arbitrary user comparers, the bytewise comparer's own laws over all byte strings, and 'the index routes every lookup' are not decided.",
+   ref="DESIGN.md §2 C15"),
+ "C16": dict(
+   technique='sibling comparison of normalised SSA expression signatures (bloom generator vs probe; filter block writer vs reader), call-site argument flow (user key on both sides), must-precede (add-to-filter before success; flush per block; finish before metaindex), guard extraction for the fail-open rules',
+   text="Decides filter build/probe agreement and fail-open behaviour: the internal-key wrappers pass the user key both ways, bloom generator and probe share hash/rotation/bit-position expressions and the probe count byte, every appended key is added to the filter before success, partitions flush with each data block, writer/reader agree on the partition index, out-of-range or inconsistent filter data answers 'maybe', a filter miss becomes not-found only when a filter exists and filtering was requested, a corrupted filter block disables filtering. The no-false-negative law over all key sets (hash behaviour) is not decided.",
+   ref="DESIGN.md §2 C16"),
+ "C17": dict(
+   technique="guarded-by lockset analysis and lock pairing for the cache/LRU, guard extraction (constructor once, finalise at zero refs, ban flag), lockset query for calls reaching Handle.Release, exactly-once path rules for the deletion callback, must-pass-through for the capacity trim",
+   text="Decides the structural conditions of the cache guarantees: fields under their locks, constructor only under the node lock when empty, handle release never under the policy lock, idempotent finalisation only at zero references followed by removal, deletion callback queued-or-called exactly once per path, capacity trim loop before every unlock, admission only if it fits, banned nodes never re-admitted. Per-key uniqueness across concurrent resizes and run-time ordering of finalisation vs. handle release are not decided.",
+   ref="DESIGN.md §2 C17"),
+ "C19": dict(
+   technique="value-origin flow (level constant, file number, running maxima identified by SSA phi/branch shape), must-precede / not-on-error path rules (rebuild→close→rename, create→commit, recoverTable→openDB), guard extraction with exactness checks for registration/rebuild/abort decisions",
+   text="Decides the structure Recover rests on: level-0 registration under the table's own number and scanned range, recorded sequence = running maximum of parsed sequences over all tables, file-number allocator advanced past the highest table, rebuilt tables closed+synced before rename, fresh manifest before commit, I/O errors abort while corruption is counted, tables with good keys registered unless strict recovery saw damage, damaged tables rebuilt first, StrictReader masked on a private options copy, Recover ends in the ordinary open path. Equality of recovered contents is not decided.",
+   ref="DESIGN.md §2 C19"),
 }
 
 PENDING = "rules for this property are not armed in this revision of /verif (work in progress); it is not claimed until its checks are silent on the tree and kill their own mutants"
